@@ -244,7 +244,7 @@ def run(ctx):
         ctx.unk("C20.3", "distinctness of the expanded world cell: interpretation stopped", SER, str(e))
     for o in rec.obligations:
         if o.rule == "C06.2":
-            ctx.ob("C20.3", o.construct.replace("children pairwise distinct", "expansion of the world cell has no repetition"), o.state, o.where, o.detail)
+            ctx.ob("C20.3", o.construct.replace("children pairwise distinct", "expansion of the world cell has no repetition").replace("the same child is listed", "the expansion of the world cell lists the same cell"), o.state, o.where, o.detail)
     for a in range(0, MAX + 1):
         for b in range(a, MAX + 1):
             nc = const_call(interp, INFO, "get_num_children", [a, b])
